@@ -59,6 +59,8 @@ func NewSys(meta Meta, seed int64, init any) (Sys, error) {
 		return newRelaygenSys(meta, seed, init)
 	case "codec":
 		return newCodecSys(meta, seed, init)
+	case "tcp":
+		return newTCPSys(meta, seed, init)
 	case "framer", "bindreply":
 		return newFramerSys(meta, seed, init)
 	}
